@@ -1,11 +1,14 @@
 package checks
 
 import (
+	"errors"
 	"fmt"
 	"sort"
 	"strings"
 	"sync"
 	"time"
+
+	"github.com/vx-labs/mqtt-protocol/packet"
 
 	"wv/fw"
 	"wv/kit"
@@ -132,10 +135,20 @@ func c14Scenario(c *fw.Ctx, s int) {
 		expectAck  bool
 		id         int
 		qos        int
+		localFails bool
 	}
 	sent := []*sentMsg{}
 	seqNo := 0
-	appendCount := func(node int, tag string) int {
+	appendCount := func(node int, tag string) int { // successful appends
+		k := 0
+		for _, r := range nodes[node].Log.Records() {
+			if string(r.Payload) == tag && r.Err == nil {
+				k++
+			}
+		}
+		return k
+	}
+	appendAttempts := func(node int, tag string) int {
 		k := 0
 		for _, r := range nodes[node].Log.Records() {
 			if string(r.Payload) == tag {
@@ -191,6 +204,14 @@ func c14Scenario(c *fw.Ctx, s int) {
 				}
 				for i := 0; i < nNodes; i++ {
 					cl.SetUnreachable(uint64(i+1), m.unreach[i])
+					nodes[i].Log.SetFail(nil)
+				}
+				// in a fifth of the cases the publisher's own log rejects the write
+				m.localFails = m.dests[pn] && (seqNo+s)%5 == 0
+				if m.localFails {
+					nodes[pn].Log.SetFail(func(*packet.Publish, int) error { return errors.New("injected local log failure") })
+					m.expectAck = false
+					c.Observe("publishes_with_local_log_failure", 1)
 				}
 				seqNo++
 				m.tag = fmt.Sprintf("c14-%d-%d", s, seqNo)
@@ -220,7 +241,7 @@ func c14Scenario(c *fw.Ctx, s int) {
 					c.Violation("rpc-missing", fmt.Sprintf("scenario %d: publish on %q from n%d: only %d of %d destination nodes were contacted", s, topic, pn+1, len(cl.RPCLog())-rpcBefore, remoteDests), wit(m, nil))
 					return
 				}
-				if m.dests[pn] && !waitCount(func() int { return appendCount(pn, m.tag) }, 1, 30*time.Second) {
+				if m.dests[pn] && !waitCount(func() int { return appendAttempts(pn, m.tag) }, 1, 30*time.Second) {
 					c.Violation("local-append-missing", fmt.Sprintf("scenario %d: publish on %q from n%d was never appended to the publisher node's own log although it hosts a matching subscription", s, topic, pn+1), wit(m, nil))
 					return
 				}
@@ -245,6 +266,7 @@ func c14Scenario(c *fw.Ctx, s int) {
 	// barrier: everything reachable again, sentinel to all
 	for i := 0; i < nNodes; i++ {
 		cl.SetUnreachable(uint64(i+1), false)
+		nodes[i].Log.SetFail(nil)
 	}
 	if acked, err := pubs[0].Publish("zz/c14", []byte("END"), 1, false, kit.DefaultWait); !acked {
 		c.Inconclusive(fmt.Sprintf("sentinel not acknowledged: %v", err))
@@ -265,6 +287,9 @@ func c14Scenario(c *fw.Ctx, s int) {
 			want := 0
 			if m.dests[i] && (i == pn || !m.unreach[i]) {
 				want = 1
+			}
+			if i == pn && m.localFails {
+				want = 0 // offered, rejected
 			}
 			c.Observe("append_counts_compared", 1)
 			if got != want {
@@ -290,7 +315,7 @@ func c14Scenario(c *fw.Ctx, s int) {
 		}
 		for si, su := range subs {
 			want := 0
-			if su.node == pn || !m.unreach[su.node] {
+			if (su.node == pn && !m.localFails) || (su.node != pn && !m.unreach[su.node]) {
 				for _, f := range su.filters {
 					if model.Match(f, m.topic) {
 						want++
